@@ -11,13 +11,14 @@ IM == INSTANCE IdMath
 TDist(a, b) == IM!Distance(a, b)
 TXorLt(a, b, t) == IM!XorLess(a, b, t)
 TPfx(id) == IM!First21(id)
-VARIABLES s, l, U, mode, beh
+VARIABLES s, l, U, mode, beh,
+          heard      \* node index -> instant of the last add() of that node (when the harness "heard from it"), whatever the table kept
 INSTANCE RT WITH K <- KK, Stale <- StaleC, RefreshKnown <- RefreshKnownC, RekeySorted <- RekeySortedC, DistOp <- TDist, XorLt <- TXorLt, Pfx <- TPfx
 
 Rec == ndJsonDeserialize(IOEnv.TRACE)
-vars == <<s, l, U, mode, beh>>
+vars == <<s, l, U, mode, beh, heard>>
 Empty == [id |-> <<>>, b |-> <<>>, now |-> 0]
-TraceInit == s = Empty /\ l = 1 /\ U = <<>> /\ mode = "skip" /\ beh = -1
+TraceInit == s = Empty /\ l = 1 /\ U = <<>> /\ mode = "skip" /\ beh = -1 /\ heard = <<>>
 
 Ent(i, seen) == [id |-> U[i].id, ip |-> U[i].ip, port |-> U[i].port, sec |-> U[i].sec, seen |-> seen]
 \* observed table state from a projection  <<d, node index, age>>*
@@ -42,8 +43,8 @@ Report(failed, extra) == PrintT(<<"VIOL", ToJson([line |-> l, b |-> beh, failed 
 
 Reset == /\ Rec[l].e = "reset"
          /\ U' = Rec[l].nodes /\ s' = [id |-> Rec[l].tid, b |-> <<>>, now |-> 0]
-         /\ mode' = "ok" /\ beh' = Rec[l].b /\ l' = l + 1
-Skip == /\ Rec[l].e = "op" /\ mode = "skip" /\ l' = l + 1 /\ UNCHANGED <<s, U, mode, beh>>
+         /\ mode' = "ok" /\ beh' = Rec[l].b /\ l' = l + 1 /\ heard' = <<>>
+Skip == /\ Rec[l].e = "op" /\ mode = "skip" /\ l' = l + 1 /\ UNCHANGED <<s, U, mode, beh, heard>>
 
 \* operations that change the table
 Mutating(ev) ==
@@ -59,7 +60,17 @@ Mutating(ev) ==
                 /\ Len(ev.iter) = Size(o) /\ {ev.iter[i] : i \in 1..Len(ev.iter)} = members
                 /\ ev.iter = [i \in 1..Len(ev.proj) |-> ev.proj[i][2]]
                 /\ ev.to_bootstrap = Cardinality({i \in 1..Len(ev.proj) : ev.proj[i][3] <= StaleC})
+      \* "adding never evicts a fresh node", judged by when the node was last HEARD FROM (the last add() of it in this history), not
+      \* by the stamp the table kept for it: an entry that left the table although add() was called for it 15 minutes ago or less
+      nowT == s.now
+      before == {x.id : x \in All(s)}
+      after == {x.id : x \in All(o)}
+      freshEvicted == ev.op = "add" /\ \E n \in DOMAIN heard : n # ev.n /\ U[n].id # U[ev.n].id /\ U[n].id \in before /\ U[n].id \notin after
+                                          /\ nowT - heard[n] <= StaleC
+                                          \* (the entry in the table was that node: same address)
+                                          /\ \E x \in All(s) : x.id = U[n].id /\ x.ip = U[n].ip /\ x.port = U[n].port
       failed == Structure(o)
+                \cup (IF freshEvicted THEN {"C12_NeverEvictsFresh"} ELSE {})
                 \cup (IF sizeOk THEN {} ELSE {"C12_SizeAgrees"})
                 \cup (IF ev.op = "add" /\ ~C12_EvictOnlyStaleHead(s, Ent(ev.n, s.now), o) THEN {"C12_EvictOnlyStaleHead"} ELSE {})
                 \cup (IF ev.op = "add" /\ ~C14_RefreshOnReAdd(s, Ent(ev.n, s.now), o) THEN {"C14_RefreshOnReAdd"} ELSE {})
@@ -72,6 +83,8 @@ Mutating(ev) ==
         ELSE IF ~conforms THEN PrintT(<<"DRIFT", ToJson([line |-> l, b |-> beh, op |-> ev.op])>>) /\ mode' = "ok"
         ELSE mode' = "ok"
      /\ s' = IF (failed = {} /\ ~conforms) \/ (failed # {} /\ Structure(o) = {}) THEN o ELSE m.st
+     \* the node of an add() that is in the table afterwards has been heard from now
+     /\ heard' = IF ev.op = "add" /\ U[ev.n].id \in after THEN (ev.n :> nowT) @@ heard ELSE heard
 
 \* closest(): answer as node indices
 Closest(ev) ==
@@ -96,7 +109,7 @@ Closest(ev) ==
       conforms == [i \in 1..Len(model) |-> model[i].id] = [i \in 1..Len(ans) |-> ans[i].id]
   IN /\ IF failed # {} THEN Report(failed, [op |-> "closest", explained |-> OmissionExplained(s, ans, t), conforms_to_model |-> conforms])
         ELSE IF ~conforms THEN PrintT(<<"DRIFT", ToJson([line |-> l, b |-> beh, op |-> "closest"])>>) ELSE TRUE
-     /\ UNCHANGED <<s, mode>>
+     /\ UNCHANGED <<s, mode, heard>>
 
 \* ClosestNodes accumulator: adds in the given order, observed order afterwards, take_until_secure result
 Acc(ev) ==
@@ -110,7 +123,7 @@ Acc(ev) ==
       conforms == [i \in 1..Len(model) |-> model[i].id] = [i \in 1..Len(order) |-> order[i].id]
   IN /\ IF failed # {} THEN Report(failed, [op |-> "acc"])
         ELSE IF ~conforms THEN PrintT(<<"DRIFT", ToJson([line |-> l, b |-> beh, op |-> "acc"])>>) ELSE TRUE
-     /\ UNCHANGED <<s, mode>>
+     /\ UNCHANGED <<s, mode, heard>>
 
 Op == /\ Rec[l].e = "op" /\ mode = "ok"
       /\ LET ev == Rec[l] IN
@@ -118,7 +131,7 @@ Op == /\ Rec[l].e = "op" /\ mode = "ok"
            [] ev.op = "closest" -> Closest(ev)
            [] ev.op = "acc" -> Acc(ev)
            \* the library panicked inside one of the operations above (a panic is data)
-           [] ev.op = "panic" -> Report({"C11_NoPanic", "C12_NoPanic"}, [op |-> "panic"]) /\ mode' = "skip" /\ UNCHANGED s
+           [] ev.op = "panic" -> Report({"C11_NoPanic", "C12_NoPanic"}, [op |-> "panic"]) /\ mode' = "skip" /\ UNCHANGED <<s, heard>>
       /\ l' = l + 1 /\ UNCHANGED <<U, beh>>
 
 TraceNext == l <= Len(Rec) /\ (Reset \/ Skip \/ Op)
